@@ -5,7 +5,7 @@
     below 2^64 (growth arithmetic cannot wrap). [op_ok]: index arguments are below 2^64, i.e. the whole
     size_t domain. Statements only; proofs are in Array/*.v. *)
 From CC Require Import Base.Prelude Base.Alloc Base.Ledger Generated.Status Generated.Constants Generated.Guards.
-From CC Require Import Array.ArrayModel Array.ArrayProofs Array.ArrayLoops Array.ArrayRefine.
+From CC Require Import Array.ArrayModel Array.ArrayProofs Array.ArrayLoops Array.ArrayRefine Array.SizedEnc.
 Local Open Scope N_scope.
 
 (** One operation from any state satisfying the invariant, any predicate, any element values (duplicates
@@ -83,6 +83,23 @@ Theorem C01_destroy : forall a al,
     (forall b, In b (live al') <-> In b (live al) /\ b_id b <> a_blk a /\ b_id b <> a_hdr a).
 Proof. exact arr_destroy_spec. Qed.
 Print Assumptions C01_destroy.
+
+(** CC_ArraySized is checked against this same model: an element of k bytes is the little-endian image [enc k x] of a
+    number x < 256^k (harness/sized.c). The encoding is a bijection, so byte-wise equality of stored elements (what
+    the library's comparison loops decide) is equality of the numbers the model and the ideal list talk about, and a
+    stored element reads back as the number that was stored. *)
+Theorem C01_sized_encoding_injective : forall k x y,
+  x < 256 ^ N.of_nat k -> y < 256 ^ N.of_nat k -> (enc k x = enc k y <-> x = y).
+Proof. exact enc_eq_iff. Qed.
+Print Assumptions C01_sized_encoding_injective.
+
+Theorem C01_sized_encoding_roundtrip : forall k x, x < 256 ^ N.of_nat k -> dec (enc k x) = x.
+Proof. exact dec_enc. Qed.
+Print Assumptions C01_sized_encoding_roundtrip.
+
+Theorem C01_sized_encoding_onto : forall l, Forall (fun b => b < 256) l -> enc (length l) (dec l) = l.
+Proof. exact enc_dec. Qed.
+Print Assumptions C01_sized_encoding_onto.
 
 (** Non-vacuity: a concrete full array under a concrete ledger satisfies the premises. *)
 Example C01_inv_nonvacuous :
